@@ -462,6 +462,9 @@ func drawStateless(t *rapid.T) []string {
 			out = append(out, n)
 		}
 	}
+	if len(out) >= 2 { // the list is the caller's: any order, not only the sorted one
+		out = rapid.Permutation(out).Draw(t, "sl_order")
+	}
 	return out
 }
 
